@@ -250,6 +250,8 @@ def _file(case, ctx):
                 t, c = (int(v) for v in np.argwhere(masked != mval)[0])
                 ctx.violation("masked-sample-not-mask-value", f"sample {t} of masked channel {int(np.flatnonzero(cm)[c])} is {masked[t, c]}, mask value {mval} (gulp={gulp}, block {t // max(1, min(gulp, N))})", one)
                 return
+        elif not keep.any():
+            ctx.skip("all channels masked: the default mask value (median of unmasked channel means) is undefined")
         else:
             v0 = masked[0, 0]
             if not np.all(masked == v0):
